@@ -1,7 +1,19 @@
 (* Props/C03.v — the emitted module is loadable Python with every reference resolvable.
-   This revision: the facts about labels that make names valid (tables regenerated from models/base.py and the
-   interpreter), non-vacuity of the emitter on a concrete registry.  Label theorems are merged from Proofs/LabelProps.v
-   when finished; the emitter is tied byte-for-byte by X-emit and loading is judged by CPython in the oracle. *)
+   PART 1 (labels; tables regenerated from models/base.py and the interpreter): every keyword is blacklisted; the suffix
+   really escapes the blacklist.  Validity / injectivity of labels: Props/C11.v.
+   PART 2 (class names and references; statements only, proofs in Proofs/NamesProps.v; model Model/Names.v tied by
+   X-names(registry) on multi-root registries):
+     C03_generate_names_distinct — after generate_names EVERY model has a name, and the names are pairwise distinct
+       provided no explicit name is empty (premise necessary: C03_empty_names_counterexample); indices, fields, pointers are
+       untouched; C03_fix_dups_pointwise says what is kept: the first holder of a name keeps it, a model whose name is
+       unique is unchanged, a later holder gets <name>(_<index>)+.
+     C03_unrepaired_code_refuted — the code before the D33 repair yields A, A_1B, A_1B; C03_fix_dups_conservative — the
+       repair changes nothing where the old result was duplicate-free.
+     C03_flat_refs_resolvable / C03_named_flat_refs_resolvable — in the flat layout of a closed graph (C05: merge_models
+       keeps graphs closed) every model reference in a field targets exactly one placed class, which has a unique,
+       non-empty name: exactly one class per model and every reference resolvable.
+   NOT PROVED: that the emitted text executes (CPython, the frameworks): the emitter is tied byte for byte by X-emit and
+   loading is judged by CPython in the oracle; nested-layout scoping of quoted references is oracle-only. *)
 From Coq Require Import List Bool Arith NArith String.
 From J2M.Model Require Import Base Framework Label Emit.
 From J2M.Gen Require Labels.
@@ -24,3 +36,101 @@ Proof.
 Qed.
 Theorem C03_ones_link : Labels.ones = [[]; s_ "one"; s_ "two"; s_ "three"; s_ "four"; s_ "five"; s_ "six"; s_ "seven"; s_ "eight"; s_ "nine"].
 Proof. reflexivity. Qed.
+
+(* ---- PART 2: class names and references ---- *)
+From J2M.Model Require Import Registry Layout Names.
+From J2M.Proofs Require Import RegistryInvAux RegistryInv LayoutProps NamesProps.
+
+Theorem C03_fresh_not_taken :
+  forall (taken : list str) (idx n : str), ~ In (fresh (S (Datatypes.length taken)) taken idx n) taken.
+Proof. exact NamesProps.fresh_not_taken. Qed.
+
+Theorem C03_fix_dups_distinct :
+  forall l : list model,
+       (forall m : model, In m l -> exists n : str, m_name m = Some n /\ n <> nil) ->
+       NoDup (names_of (fix_dups l)).
+Proof. exact NamesProps.fix_dups_distinct. Qed.
+
+Theorem C03_fix_dups_pointwise :
+  forall l : list model,
+       named l ->
+       forall (i : nat) (m m' : model),
+       nth_error l i = Some m ->
+       nth_error (fix_dups l) i = Some m' ->
+       m_idx m' = m_idx m /\
+       m_fields m' = m_fields m /\
+       (exists n' : str, m_name m' = Some n' /\ n' <> nil) /\
+       (~ In (m_name m) (map m_name (firstn i l)) -> m' = m) /\
+       (In (m_name m) (map m_name (firstn i l)) ->
+        m_gen m' = Some true /\
+        (exists k : nat,
+           m_name m' = Some (nm m ++ List.concat (repeat (UNDERSCORE ++ index_str (m_idx m)) (S k))))).
+Proof. exact NamesProps.fix_dups_pointwise. Qed.
+
+Theorem C03_fix_dups_unique_id :
+  forall l : list model, named l -> NoDup (names_of l) -> fix_dups l = l.
+Proof. exact NamesProps.fix_dups_unique_id. Qed.
+
+Theorem C03_generate_names_distinct :
+  forall (d : N -> bool) (lo up : N -> str) (sg : str -> str) (g : graph),
+       let g' := generate_names d lo up sg g in
+       (forall m : model, In m (ms g') -> exists n : str, m_name m = Some n) /\
+       ((forall (m : model) (n : str), In m (ms g) -> m_name m = Some n -> n <> nil) ->
+        NoDup (names_of (ms g')) /\
+        (forall m : model, In m (ms g') -> exists n : str, m_name m = Some n /\ n <> nil)) /\
+       map m_idx (ms g') = map m_idx (ms g) /\
+       map m_fields (ms g') = map m_fields (ms g) /\ ps g' = ps g /\ nxt g' = nxt g.
+Proof. exact NamesProps.generate_names_distinct. Qed.
+
+Theorem C03_empty_names_counterexample :
+  names_of (fix_dups (mk 0 (Some nil) :: mk 1 (Some nil) :: nil)) = nil :: nil :: nil /\
+       ~ NoDup (names_of (fix_dups (mk 0 (Some nil) :: mk 1 (Some nil) :: nil))).
+Proof. exact NamesProps.fix_dups_empty_names_stay. Qed.
+
+Theorem C03_unrepaired_code_refuted :
+  names_of (fix_dups_old ex3) =
+       A_ :: (A_ ++ UNDERSCORE ++ index_str 1) :: (A_ ++ UNDERSCORE ++ index_str 1) :: nil /\
+       ~ NoDup (names_of (fix_dups_old ex3)) /\
+       names_of (fix_dups ex3) =
+       A_
+       :: (A_ ++ UNDERSCORE ++ index_str 1 ++ UNDERSCORE ++ index_str 1)
+          :: (A_ ++ UNDERSCORE ++ index_str 1) :: nil /\ NoDup (names_of (fix_dups ex3)).
+Proof. exact NamesProps.fix_dups_old_refuted. Qed.
+
+Theorem C03_fix_dups_conservative :
+  forall l : list model,
+       (forall m : model, In m l -> exists n : str, m_name m = Some n /\ n <> nil) ->
+       NoDup (names_of (fix_dups_old l)) -> fix_dups l = fix_dups_old l.
+Proof. exact NamesProps.fix_dups_conservative. Qed.
+
+Theorem C03_flat_refs_resolvable :
+  forall (g : graph) (l : list node),
+       closed g ->
+       compose_flat g = Some l ->
+       forall (m : model) (i : N),
+       In m (ms g) ->
+       In i (fptrs (m_fields m)) ->
+       In (m_idx m) (flat_map flatten l) /\
+       count_occ N.eq_dec (flat_map flatten l) i = 1 /\
+       (exists m' : model,
+          In m' (ms g) /\ m_idx m' = i /\ (forall m'' : model, In m'' (ms g) -> m_idx m'' = i -> m'' = m')).
+Proof. exact NamesProps.flat_refs_resolvable. Qed.
+
+Theorem C03_named_flat_refs_resolvable :
+  forall (d : N -> bool) (lo up : N -> str) (sg : str -> str) (g : graph) (l : list node),
+       closed g ->
+       (forall (m : model) (n : str), In m (ms g) -> m_name m = Some n -> n <> nil) ->
+       let g' := generate_names d lo up sg g in
+       compose_flat g' = Some l ->
+       NoDup (names_of (ms g')) /\
+       (forall (m : model) (i : N),
+        In m (ms g') ->
+        In i (fptrs (m_fields m)) ->
+        count_occ N.eq_dec (flat_map flatten l) i = 1 /\
+        (exists (m' : model) (n' : str),
+           In m' (ms g') /\
+           m_idx m' = i /\
+           m_name m' = Some n' /\
+           n' <> nil /\ (forall m'' : model, In m'' (ms g') -> m_idx m'' = i -> m'' = m'))).
+Proof. exact NamesProps.named_flat_refs_resolvable. Qed.
+
